@@ -438,6 +438,38 @@ def check_audit_traffic(st):
         st.sample({'audit_traffic_kex': kex, 'connections': len(srv.records), 'packets_checked': npk}, cap=16)
 
 
+def real_traffic(st):
+    """Bytes captured from the real CLI over real loopback TCP: framing and message shape, compared with the in-model capture."""
+    import os
+    if os.environ.get('VERIF_NO_REALNET'):
+        return 0
+    from mc import realnet
+    n = 0
+    key = ['rsa-sha2-512', 'ssh-ed25519']
+    for kex, gex in ((['curve25519-sha256'], None), (['diffie-hellman-group14-sha256', 'diffie-hellman-group-exchange-sha256'], P.GexPolicy([2048, 4096], P.STRICT))):
+        def mk(kex=kex, gex=gex):
+            return P.Server(kex=kex, key=key, enc=['aes256-ctr'], mac=['hmac-sha2-256'], host_keys=P.standard_host_keys(key), gex=gex, banner=b'SSH-2.0-OpenSSH_8.9p1')
+        real_srv = mk()
+        tw = realnet.TwinServer(real_srv, {})
+        try:
+            argv = ['-n', '-t', '1', '--skip-rate-test', '127.0.0.1:%d' % tw.port]
+            rs, rout, rerr = realnet.run_real_cli(argv)
+        finally:
+            tw.close()
+        model_srv = mk()
+        H.audit(model_srv)
+
+        def shape(srv):
+            # the DH public value depends on the random exponent (pinned in the model), so its length is not compared
+            return [[(pk['type'], None if pk['type'] in (30, 32) else pk['len'], tuple(pk['problems'])) for pk in r.get('packets_in', [])] for r in srv.records]
+        if shape(real_srv) == shape(model_srv) and all(not pk['problems'] or pk['problems'] == ['empty payload'] for r in real_srv.records for pk in r.get('packets_in', [])):
+            n += 1
+        else:
+            st.extra['trace_validation_mismatches'] += 1
+            print('TRACE-VALIDATION-MISMATCH: packets sent over real TCP %s vs in the model %s' % (shape(real_srv)[:4], shape(model_srv)[:4]))
+    return n
+
+
 def run(tier, seed):
     t0 = time.time()
     W = 1 << (13 if tier == 'quick' else 17)
@@ -454,6 +486,7 @@ def run(tier, seed):
     check_audit_traffic(st)
     L = 1024 if tier == 'quick' else 4096
     par.pmap(work_framing, list(range(0, L + 1)), stats=st)
+    validated = real_traffic(st)
     # supplementary (not deciding): seeded random big integers
     import random
     rnd = random.Random(seed)
@@ -476,7 +509,7 @@ def run(tier, seed):
                                                                         [hex(x) for x in WORDS], L, 4 if tier == 'quick' else 5,
                                                                         2 if tier == 'quick' else 3),
         assumptions=['independent codec: mc/wire.py (int.to_bytes signed, zlib CRC)', 'SSH-1 mpints are unsigned by format'],
-        exhaustive=True)
+        exhaustive=True, traces_validated=validated)
 
 
 def replay(path):
